@@ -68,7 +68,7 @@ ASSUMPTIONS = [
     "passes the same number to run()",
 ]
 REQUIRED_LABELS = {"all": ["multi_band", "band_start_ge_8", "shots_gt1", "dagger_in_loop", "space_then_roll_then_space",
-                           "integer_shift", "two_mode_across_bands"]}
+                           "integer_shift", "two_mode_across_bands", "array_index_ge_10"]}
 
 EPS2 = 0.0002 ** 2
 SELECT = 0.25  # post-selection value of measurements of kind "hselect" (only used to see whether unrolling keeps it)
@@ -499,15 +499,23 @@ def tdm_spec(draw, bands=None, meas_kinds=("homodyne",), max_body=6, wide=False,
     total = sum(N)
     T = draw(st.integers(1, max_T))
     arrays, kinds = [], []
+    # many parameter arrays (two-digit loop-variable names p10, p11, ..): some leading arrays of mixed kinds, used or not
+    cap = 5
+    if draw(st.integers(0, 5)) == 0:
+        for _ in range(draw(st.integers(8, 11))):
+            kd = draw(st.sampled_from(["angle", "angle", "rs", "rd"]))
+            arrays.append([draw(_slot(kd)) for _ in range(T)])
+            kinds.append(kd)
+        cap = len(arrays) + 4
 
     def param(kind):
         how = draw(st.integers(0, 2))
         if how == 0:
             return draw(_slot(kind))
         same = [i for i, k in enumerate(kinds) if k == kind]
-        if same and (len(arrays) >= 5 or draw(st.booleans())):
+        if same and (len(arrays) >= cap or draw(st.booleans())):
             return ["p", draw(st.sampled_from(same))]
-        if len(arrays) >= 5:
+        if len(arrays) >= cap:
             return draw(_slot(kind))
         arrays.append([draw(_slot(kind)) for _ in range(T)])
         kinds.append(kind)
@@ -595,6 +603,9 @@ def spec_labels(ps, shots=1):
         labs.append("angle_from_array")
     if any(g[0] in EXPR_GATES for g in ps["body"]):
         labs.append("decomposed_gate_in_loop")
+    used = [x[1] for o in ps["body"] for x in o[1] if isinstance(x, list)] + [m[2][1] for m in ps["meas"] if isinstance(m[2], list)]
+    if any(i >= 10 for i in used):
+        labs.append("array_index_ge_10")
     labs.append("bins:%d" % ps["T"])
     return labs
 
